@@ -67,8 +67,10 @@ def observe(raw):
     return m
 
 
-def concrete(step, field, form):
-    """Concrete value for a symbolic request form (distinct per step; reserved / non-ASCII chars)."""
+def concrete(step, field, form, dups=0):
+    """Concrete value for a symbolic request form (distinct per step; reserved / non-ASCII chars).
+    dups: the list holds entries that are equal / differ only in letter case / only by a trailing slash (the value
+    written is the list as given - the tool has no business deciding which URLs mean the same)."""
     if field == "comment":
         return "c%d é&=%%+# x" % step
     if field == "source":
@@ -77,6 +79,9 @@ def concrete(step, field, form):
         return True
     base = {"announce": "http://t%d.example/announce?a=1&b=%%20", "url-list": "http://w%d.example/ü/",
             "httpseeds": "http://h%d.example/seed"}[field] % step
+    if form == "s2" and dups:
+        return [[base, base], [base + "/Key", base + "/key", base + "/KEY"], [base + "/dir", base + "/dir/", base + "/dir"],
+                [base + "/2", base, base + "/2"]][(dups - 1) % 4]
     if form == "s2":
         return [base, base + "/2"]
     return [base]
@@ -211,7 +216,7 @@ def run_history(case):
                     if f in ("comment", "source"):
                         argv += ["--" + f, ""]
                     continue
-                val = concrete(n, f, form)
+                val = concrete(n, f, form, stp.get("dups", 0))
                 if form == "k":         # the (first) value the field holds right now
                     cur = _current(out, f)
                     if cur is not None:
